@@ -1,5 +1,5 @@
-(* Extraction of the executable models.  `ExtrOcamlBasic` only: N, Z, positive and nat stay
-   the extracted inductive types; no Extract Constant. Run from ocaml/gen (see ocaml/build.sh). *)
+(* Extraction for the C10 runner.  `ExtrOcamlBasic` only: N, Z, positive and nat stay the extracted
+   inductive types; no Extract Constant.  Run by ocaml/build.sh from ocaml/gen/c10_run. *)
 Require Extraction.
 Require Import ExtrOcamlBasic.
 Require Import ZArith NArith.
